@@ -509,7 +509,8 @@ def evaluate(ctx: Ctx, stream: str, cases, with_reopen=False):
         try:
             outs, fails = run_impl(case, ctx.tmp if with_reopen else None, reopened)
         except Exception as e:  # noqa: BLE001
-            outs, fails = ["driver:" + type(e).__name__], [("driver-crash", f"{type(e).__name__}: {e}")]
+            sig = "iteration-unbounded" if "iteration does not terminate" in str(e) else "driver-crash"
+            outs, fails = ["driver:" + type(e).__name__], [(sig, f"{type(e).__name__}: {e}")]
         ctx.count("oracle:" + stream, len(case["ops"]))
         for sig, detail in fails:
             ctx.oracle_fail(sig, case, detail)
@@ -574,7 +575,7 @@ def run(ctx: Ctx) -> int:
 def streams_for(ctx: Ctx, rng):
     quick = ctx.quick
     stub = scripted_histories("stub") + index_cases(rng, quick)
-    stub += [gen_history(rng, "stub", rng.randrange(4, 40), 8) for _ in range(1500 if quick else 20000)]
+    stub += [gen_history(rng, "stub", rng.randrange(4, 40), 8) for _ in range(3000 if quick else 30000)]
     real = scripted_histories("real")
     real += [gen_history(rng, "real", rng.randrange(4, 30), 6) for _ in range(22 if quick else 300)]
     return [("stub-history", stub, False), ("real-history", real, True)]
@@ -596,7 +597,7 @@ def search(ctx: Ctx, broken) -> list:
         try:
             _, fails = run_impl(case)
         except Exception as e:  # noqa: BLE001
-            fails = [("driver-crash", f"{type(e).__name__}: {e}")]
+            fails = [("iteration-unbounded" if "iteration does not terminate" in str(e) else "driver-crash", f"{type(e).__name__}: {e}")]
         for sig, detail in fails:
             found.append((sig, case, detail))
         if len(found) > 30:
@@ -611,7 +612,10 @@ def replay(path: str) -> int:
     if d.get("kind") == "failing-input":
         case = d["case"]
         with tempfile.TemporaryDirectory(prefix="verif_C19_replay_") as t:
-            _, fails = run_impl(case, Path(t) if case["kind"] == "real" else None)
+            try:
+                _, fails = run_impl(case, Path(t) if case["kind"] == "real" else None)
+            except Exception as e:  # noqa: BLE001
+                fails = [(d.get("signature"), f"{type(e).__name__}: {e}")]
         fails = [f for f in fails if f[0] == d.get("signature")] or fails
         if fails:
             print(f"replay: still failing: [{fails[0][0]}] {fails[0][1]}")
